@@ -44,6 +44,16 @@ PROPS = {
             "async scheduling (rule R1 reads the forwarding bodies sequentially)",
         ],
     },
+    "C01": {
+        "units": ["rpid"], "kani_complete": [], "kani_bounded_quick": [], "kani_bounded_thorough": [],
+        "design_ref": "DESIGN.md section 5 / C01",
+        "not_covered": [
+            "'a rejected pair never reaches the authenticator / the returned id is the rp.id of the CTAP request': "
+            "dataflow inside Client::register / authenticate (serde_json / cbor! / ciborium code)",
+            "Url parsing (origin.domain() / scheme() are assumed accessors); idna::domain_to_ascii is an assumed dependency",
+            "that the default provider computes the registrable domain correctly (C10)",
+        ],
+    },
     "C02": {
         "units": ["cer"], "kani_complete": [], "kani_bounded_quick": [], "kani_bounded_thorough": [],
         "design_ref": "DESIGN.md section 5 / C02",
